@@ -25,7 +25,10 @@
 (*            vector of width W; the LOW LowBits bits of the vector are    *)
 (*            the part anonymisation must zero (the Go harness embeds the  *)
 (*            vector so that they are exactly the real low 16 / 80 bits).  *)
-(*            "m4" is the IPv4-mapped IPv6 form of a v4 host.              *)
+(*            "m4" is the IPv4-mapped IPv6 form of a v4 host (the same     *)
+(*            host, also when a client is IDENTIFIED by that spelling);    *)
+(*            "z6" is a link-local IPv6 address with a zone (fe80::x%eth0):*)
+(*            sender and identifier carry the same zone.                   *)
 (*   client   the single persistent client of a configuration:             *)
 (*            [kind |-> "none"] | [kind |-> "ip", addr] |                  *)
 (*            [kind |-> "cidr", fam, bits (a prefix)] |                    *)
@@ -70,8 +73,8 @@ Plain(a) == IF a.fam = "m4" THEN [a EXCEPT !.fam = "v4"] ELSE a
 \* Is the sender (address a, ClientID cid) the persistent client P?
 IdentsBy(P, a, cid) ==
     CASE P.kind = "none" -> FALSE
-      [] P.kind = "ip"   -> Plain(a) = P.addr
-      [] P.kind = "mac"  -> Plain(a) = P.addr
+      [] P.kind = "ip"   -> Plain(a) = Plain(P.addr)
+      [] P.kind = "mac"  -> Plain(a) = Plain(P.addr)
       [] P.kind = "cidr" -> Plain(a).fam = P.fam /\ BitPrefix(P.bits, Plain(a).bits)
       [] P.kind = "cid"  -> cid # "" /\ cid = P.cid
       [] OTHER           -> FALSE
